@@ -1,6 +1,7 @@
 import NopModel.Variant
 import NopModel.OptCmp
 import NopModel.Handle
+import NopModel.Threads
 /-! Driver engine for the lifetime machines (Variant / Optional / Entry / Result) and the
 Optional comparison operators. -/
 namespace Nop.Driver
@@ -95,6 +96,17 @@ def lifeStep (toks : List String) : Option String :=
     let vars := (List.range k).map (fun v => match w.vars v with | none => "-" | some x => toString x)
     pure (" ".intercalate obs.toList ++ " | " ++ " ".intercalate vars ++ " | closed=" ++ joinOr (w.closed.map toString) ++
       " released=" ++ joinOr (w.released.map toString) ++ " next=" ++ toString w.next)
+  | "tl" :: ops => do
+    -- one thread's operations over several (T, Slot) instantiations: `i.<slot>.<v>`, `g.<slot>`, `c.<slot>`
+    let parse (tok : String) : Option (Threads.Ev Nat Threads.TLOp) :=
+      match tok.splitOn "." with
+      | ["i", k, v] => do pure ((← k.toNat?), .init (← v.toInt?))
+      | ["g", k] => do pure ((← k.toNat?), .get)
+      | ["c", k] => do pure ((← k.toNat?), .clear)
+      | _ => none
+    let evs ← ops.mapM parse
+    let (_, obs) := Threads.run (Threads.tlSys Nat) (fun _ => none) evs
+    pure (" ".intercalate (obs.map (fun p => match p.2 with | none => "-" | some x => toString x)))
   | ["cmp", op, a, b] => do
     let a ← parseO a
     let b ← parseO b
